@@ -31,3 +31,13 @@ Theorem C08_conffiles_source_is_the_model : forall cs,
   src_deb_conffiles cs = conffiles_text (conffiles_model cs) /\ src_ipk_conffiles cs = conffiles_text (conffiles_model cs).
 Proof. intros cs. exact (conj list_fns_translated (conj (src_deb_conffiles_is_model cs) (src_ipk_conffiles_is_model cs))). Qed.
 Print Assumptions C08_conffiles_source_is_the_model.
+
+(* ---- archlinux: the backup lines of .PKGINFO, translated from arch/arch.go on every run (Gen/BackupFn.v) ---- *)
+From NfpmV Require Import Gen.BackupFn.
+
+(* for every prepared content list: the values the SOURCE writes under the key "backup" - AsRelativePath(destination) of
+   every entry of one of the three configuration types, in list order - are the model's backups_model cs *)
+Theorem C08_backup_source_is_the_model : forall cs,
+  src_arch_backups_translated && seqb src_arch_backup_key (B "backup") = true /\ src_arch_backups cs = backups_model cs.
+Proof. intros cs. exact (conj backups_translated (src_arch_backups_is_model cs)). Qed.
+Print Assumptions C08_backup_source_is_the_model.
